@@ -236,7 +236,7 @@ PROPS = {
 }
 
 PROPS["C19"] = dict(
-    gens=[("codec", gen.gen_C19, 1.0)], quick=6, thorough=120, uses_gen=True,
+    gens=[("codec", gen.gen_C19, 1.0), ("edge-values", gen.gen_C19_edges, 0.7)], quick=6, thorough=120, uses_gen=True,
     rule="one script = ~2500 codec queries: boundary integers, all 512 sign/exponent classes with mantissa "
          "corner patterns, denormals, infinities, NaNs, random 32-bit patterns; distinct_nontrivial counts "
          "distinct (kind,input) queries whose handle is not 0",
@@ -340,7 +340,7 @@ PROPS["C12"] = dict(
                "clauses 10-12 under each policy), not by a theorem.")
 
 PROPS["C20"] = dict(
-    gens=[("pregen", gen.gen_C20, 1.0)], quick=50, thorough=500,
+    gens=[("pregen", gen.gen_C20, 0.7), ("pregen-skipped-levels", gen.gen_C20_skip, 0.5)], quick=50, thorough=500,
     level_text="Model = reachability (proved least fixed point, C08) under the union of the events: the grouping "
                "(by events / by levels) and the splitting option do not appear in it at all. Tie: "
                "SATURATION_FORWARD over pregen_relation with every grouping and splitting option vs the model "
